@@ -219,6 +219,23 @@ def _pu(s):
     return float(s.split('(')[0])
 
 
+def _pu_unc(s):
+    """independent reader of the three notations (uncertainty only): trailing digits of value(unc) scale with the
+    value's decimals, [nominal] has none, [low,high] is a rectangular distribution"""
+    s = s.strip()
+    if s.startswith('['):
+        parts = s[1:-1].split(',')
+        return (float(parts[1]) - float(parts[0])) / 12 ** 0.5 if len(parts) == 2 else 0.0
+    if '(' not in s:
+        return 0.0
+    v, u = s.split('(')
+    u = u.split(')')[0]
+    if '.' in u or '.' not in v:
+        return float(u)
+    from fractions import Fraction
+    return float(Fraction(int(u), 10 ** len(v.split('.')[1])))
+
+
 def _table_sweep_case(case, tier, seed):
     """ground sweep (concrete, exhaustive over rows; not a solver claim): every nuclide of the public table and of a
     fresh private table serves the mass / abundance / density of its row in the embedded tables"""
@@ -232,16 +249,18 @@ def _table_sweep_case(case, tier, seed):
         density.init(T)
     finally:
         _drop(T)
-    iso_mass = {}
+    iso_mass, iso_unc, el_unc, abund_unc = {}, {}, {}, {}
     for line in mass.isotope_mass.split('\n'):
         iso, m, p, avg = line.split(',')
         z, sym_, a = iso.split('-')
         iso_mass[(int(z), int(a))] = _pu(m)
+        iso_unc[(int(z), int(a))] = _pu_unc(m)
     el_mass = {}
     for line in mass.element_mass.split('\n'):
         w = line.split()
         if len(w) >= 4 and w[3] != '-':
             el_mass[int(w[0])] = _pu(w[3])
+            el_unc[int(w[0])] = _pu_unc(w[3])
     abund = {}
     z = None
     for line in mass.isotope_abundance.split('\n'):
@@ -251,6 +270,10 @@ def _table_sweep_case(case, tier, seed):
         else:
             w = line.split()
             abund[z][int(w[0])] = _pu(w[1])
+            abund_unc.setdefault(z, {})[int(w[0])] = _pu_unc(w[1])
+
+    def close(x, y):
+        return x is not None and y is not None and abs(x - y) <= 1e-12 * max(abs(y), 1e-300)
 
     def bad(name, got, want):
         if len(res['violations']) < 5:
@@ -266,6 +289,11 @@ def _table_sweep_case(case, tier, seed):
                     res['discharged'] += 1
                 else:
                     bad('element_mass[%s|%s]' % (el.symbol, tag), el.mass, el_mass[el.number])
+                res['claims'] += 1
+                if close(el._mass_unc, el_unc[el.number]):
+                    res['discharged'] += 1
+                else:
+                    bad('element_mass_unc[%s|%s]' % (el.symbol, tag), el._mass_unc, el_unc[el.number])
             tot = sum(abund.get(el.number, {}).values())
             for a in el.isotopes:
                 iso = el[a]
@@ -274,7 +302,18 @@ def _table_sweep_case(case, tier, seed):
                     res['discharged'] += 1
                 else:
                     bad('isotope_mass[%s-%d|%s]' % (el.symbol, a, tag), iso.mass, iso_mass.get((el.number, a)))
+                res['claims'] += 1
+                if (el.number, a) in iso_unc and close(iso._mass_unc, iso_unc[(el.number, a)]):
+                    res['discharged'] += 1
+                else:
+                    bad('isotope_mass_unc[%s-%d|%s]' % (el.symbol, a, tag), iso._mass_unc, iso_unc.get((el.number, a)))
                 want = 100 * abund[el.number][a] / tot if a in abund.get(el.number, {}) else 0
+                want_u = 100 * abund_unc[el.number][a] / tot if a in abund.get(el.number, {}) else 0
+                res['claims'] += 1
+                if close(iso._abundance_unc, want_u):
+                    res['discharged'] += 1
+                else:
+                    bad('abundance_unc[%s-%d|%s]' % (el.symbol, a, tag), iso._abundance_unc, want_u)
                 if abs(iso.abundance - want) <= 1e-12 * max(1.0, want):
                     res['discharged'] += 1
                 else:
@@ -285,6 +324,15 @@ def _table_sweep_case(case, tier, seed):
                     res['discharged'] += 1
                 else:
                     bad('abundances_sum[%s|%s]' % (el.symbol, tag), sum(el[a].abundance for a in el.isotopes), 100)
+                # atomic weight == abundance-weighted isotope mass within the stated uncertainties
+                nat = [el[a] for a in el.isotopes if el[a].abundance > 0]
+                w = sum(i.abundance / 100 * i.mass for i in nat)
+                u = sum((i.abundance / 100 * i._mass_unc) ** 2 + (i._abundance_unc / 100 * i.mass) ** 2 for i in nat) ** 0.5
+                res['claims'] += 1
+                if abs(w - el.mass) <= el._mass_unc + u:
+                    res['discharged'] += 1
+                else:
+                    bad('weighted_isotope_mass[%s|%s]' % (el.symbol, tag), w, (el.mass, el._mass_unc, u))
             res['claims'] += 1
             d = density.element_densities.get(el.symbol)
             d = d[0] if isinstance(d, tuple) else d
